@@ -34,6 +34,11 @@ def _run_chunk(lines, timeout):
         return -9, (e.stdout or b'').decode() if isinstance(e.stdout, bytes) else (e.stdout or ''), 'timeout'
 
 
+# filled when the child could not read the buffer of element-less objects (private attribute renamed): sharing is then
+# compared among objects with elements only (L.norm_step)
+DEGRADED = set()
+
+
 def run_children(hists, jobs=12, timeout=600):
     """hists: list of (id, header, toks).  Returns ({id: (echo toks, steps, lays)}, {id: why})"""
     lines = [f'{h} {hd} ' + ' '.join(t) for h, hd, t in hists]
@@ -45,6 +50,9 @@ def run_children(hists, jobs=12, timeout=600):
         for ln in stdout.splitlines():
             if ln.startswith('#BADPATH'):
                 raise RuntimeError('child imported nibabel from ' + ln)
+            if ln.startswith('#DEGRADED'):
+                DEGRADED.add(ln[10:].strip())
+                continue
             p = ln.split('\t')
             if len(p) == 4:
                 out[p[0]] = (p[1].split(), p[2].split(';'), p[3].split(';'))
@@ -197,7 +205,7 @@ def compare(chk, hists, impl, crashed, model):
         for k in range(max(len(steps), len(msteps))):
             a = steps[k] if k < len(steps) else '<none>'
             b = msteps[k] if k < len(msteps) else '<none>'
-            if a != b:
+            if (L.norm_step(a) != L.norm_step(b)) if DEGRADED else (a != b):
                 dis = (k, a, b)
                 break
         if fails and nviol < 40:
@@ -359,7 +367,7 @@ def run(chk: Check):
     ]
     chk.trusted.append('NumPy fact made explicit model state: ndarray.resize(refcheck=True) raises iff another live '
                        'object references the array (here: another live sequence object, or a local slice in '
-                       'extend(self)); checked on every history through the `_data is` relation')
+                       'extend(self)); checked on every history through the memory-owner relation of the arrays the objects hand out')
     chk.build()
     chk.run_probes()
     chk.extra['unproved_statements'] = UNPROVED
@@ -368,6 +376,9 @@ def run(chk: Check):
     hists, n_core = gen_histories(chk)
     chk.extra['core_histories'] = n_core
     impl, crashed = run_children([(h, hd, t) for h, hd, t, _ in hists])
+    if DEGRADED:
+        chk.extra['degraded_private_access'] = ('the child could not read ' + '; '.join(sorted(DEGRADED)) + ' (private '
+                                                'attribute renamed?): sharing compared among objects with elements only')
     lines = [f'{h} hist ' + ' '.join(impl[h][0]) for h, _, _, _ in hists if h in impl]
     model = common.run_model_parallel(PROP, lines)
     compare(chk, hists, impl, crashed, model)
@@ -421,17 +432,17 @@ UNPROVED = [
     'proved: _partial (exactly the same-cell elements change, i.e. while the two objects share the buffer); in '
     'C15_simulation_all the same fact is the clause "growth leaves the array names of the grown object open, but never '
     'creates sharing"',
-    'C15_simulation_all / C15_histories_list_model are stated for reachable states (reachable st := exists ops, st = exec '
-    'init ops), not for arbitrary wf st: several ingredient theorems are proved through reachability only',
     'domain restrictions of the model (reported as EBadSeq, never generated, and part of spec_rel as such): append / '
     'extend of an element with another trailing shape to a sequence WITHOUT elements (it may define the shape), '
     'shrink_data() inside a cached build (API misuse), concatenate(axis=1) of sequences without rows (AxisError on the '
     '1-D initial buffer); seq[idx, cols] is modelled as the view seq[idx] (one Z per row) and such objects are only read '
     'by the harness',
-    'Tractogram: extend / +=, __getitem__, copy (deep clone), __add__ and apply_affine on ANY VIEW (fix 3ae30612) are '
-    'proved on the model (C15_tractogram_*); the branch of apply_affine for a NON-view tractogram (whole buffer in place, '
-    'or a new array that detaches its views when np.dot(out=) refuses, e.g. float32 points — allowed, same mechanism as '
-    'S-C15d) is exercised by the harness only; save/load not covered at all',
+    'Tractogram: extend / +=, __getitem__, copy (deep clone), __add__ and both branches of apply_affine (any view, fix '
+    '3ae30612: element-wise; non-view filling its buffer: whole buffer in place for float64, a new array that moves '
+    'the object to a buffer of its own when np.dot(out=) refuses, C15_tractogram_apply_affine_whole) are proved on the '
+    'model as state functions composed of / next to the step operations (C15_tractogram_*); they are not operations of '
+    'the step alphabet, so C15_simulation_all does not range over them, and the Tractogram layer of the harness is '
+    'checked by the direct predicate only (no extracted-model correspondence); save/load not covered at all',
 ]
 
 
